@@ -227,7 +227,7 @@ func ruleCode93Checksum(c *Ctx) {
 			return
 		}
 		for _, pair := range [][2]ssa.Value{{bo.X, bo.Y}, {bo.Y, bo.X}} {
-			if s.Fn == fn && pEqual(n.NormAt(s, pair[0]), MustRef("total % 47")) {
+			if (s.Fn == fn || fn == outer) && pEqual(n.NormAt(s, pair[0]), MustRef("total % 47")) {
 				// compared directly
 			} else if nn := NewNormer(c.P); helperResult != "" {
 				nn.BindParams(outer, "content", "maxWeight")
